@@ -27,12 +27,13 @@ let show_list (l : desc list) = if l = [] then "-" else String.concat "," (List.
 let dash s = if s = "" then "-" else s
 let show_res = function ROk -> "ok" | RIdxDel -> "idxdel" | RErr -> "err"
 
-(* a visible schedule (G<t> | P<t>:<f> | U<t>:<f> | D<t>:<f>) is replayed by the extracted
+(* a visible schedule (G<t> | P<t>:<f> | U<t>:<f> | D<t>:<f> | E = tag dropped externally) is replayed by the extracted
    vis_summary (Model/Merge.v): the hidden lock regions are inserted there, not here *)
 let parse_vis (ev : string) : vis =
   let rest = String.sub ev 1 (String.length ev - 1) in
   match ev.[0] with
   | 'G' -> VG (nat_of_int (int_of_string rest))
+  | 'E' -> VX
   | k ->
     let t, f = (match String.split_on_char ':' rest with
                 | [a; b] -> nat_of_int (int_of_string a), b = "1" | _ -> failwith "ev") in
